@@ -15,13 +15,14 @@
 (* (the same text Trace_World evaluates on traces of the real contracts).   *)
 (* Checked in EVERY state: C20 (every qualifying withdrawal is enabled).    *)
 (***************************************************************************)
-EXTENDS Machine, NumInt
+EXTENDS Machine, NumInt, Json
 
 CONSTANTS KIND,          \* "NN" | "NC" | "CC"
           AMTS,          \* amounts operations may name
           MAXSTEPS,      \* depth bound
           COMMISSION,    \* commission atomics (0..DFRAC)
-          FULL           \* TRUE: also malformed / adversarial shapes
+          FULL,          \* TRUE: also malformed / adversarial shapes
+          EXPORT         \* TRUE (simulation mode only): print each completed behaviour for replay into the code
 
 MCKeyBytes(id) == <<1>>
 MCAddrOfIndex(n) == "new"
@@ -56,8 +57,8 @@ InitWorld ==
       nextc |-> 9,
       light |-> FALSE ]
 
-VARIABLES w, last, steps
-vars == <<w, last, steps>>
+VARIABLES w, last, steps, hist      \* hist: the operations so far (only read when behaviours are exported)
+vars == <<w, last, steps, hist>>
 View == <<w, steps>>         \* the observation variable `last` stays out of the fingerprint
 
 NoEv == [op |-> [op |-> "none", caller |-> "none"], res |-> [ok |-> FALSE, why |-> "", events |-> <<>>]]
@@ -126,15 +127,26 @@ RogueOps ==
 
 Ops == ProvideOps \cup WithdrawOps \cup SwapDirectOps \cup SwapHookOps \cup DonateOps \cup RogueOps
 
-Init == w = InitWorld /\ last = NoEv /\ steps = 0
+Init == w = InitWorld /\ last = NoEv /\ steps = 0 /\ hist = <<>>
 
-Next ==
+Step ==
     /\ steps < MAXSTEPS
     /\ \E op \in Ops :
           LET r == Tx(w, op) IN
           /\ w' = r.w
           /\ last' = [op |-> op, res |-> r.res]
           /\ steps' = steps + 1
+          /\ hist' = Append(hist, op)
+
+\* export: one line per completed behaviour of a simulation run (only the state TLC actually chose takes
+\* this step), replayed into the real contracts by bin/check
+Export ==
+    /\ EXPORT /\ steps = MAXSTEPS
+    /\ PrintT(<<"BEHAVIOUR", KIND, ToJson(hist)>>)
+    /\ steps' = steps + 1
+    /\ UNCHANGED <<w, last, hist>>
+
+Next == Step \/ Export
 
 Spec == Init /\ [][Next]_vars
 
